@@ -444,20 +444,22 @@ func (fr *FnRun) evalQuant(e *Expr, env *Env) Val {
 		}
 		rng = And(cs...)
 	}
-	// forall x :: trigger(pattern, body): an explicit instantiation pattern
-	var trig *Term
+	// forall x :: trigger(pattern..., body): an explicit (multi-)pattern
+	var trig []*Term
 	bodyE := e.Z
-	if bodyE.Kind == "call" && bodyE.X.Kind == "ident" && bodyE.X.Name == "trigger" && len(bodyE.Args) == 2 {
-		if pt, ok := fr.ex.force(cur.st, fr.eval(bodyE.Args[0], cur)).(*Term); ok {
-			trig = pt
+	if bodyE.Kind == "call" && bodyE.X.Kind == "ident" && bodyE.X.Name == "trigger" && len(bodyE.Args) >= 2 {
+		for _, pa := range bodyE.Args[:len(bodyE.Args)-1] {
+			if pt, ok := fr.ex.force(cur.st, fr.eval(pa, cur)).(*Term); ok {
+				trig = append(trig, pt)
+			}
 		}
-		bodyE = bodyE.Args[1]
+		bodyE = bodyE.Args[len(bodyE.Args)-1]
 	}
 	body := fr.evalBool(bodyE, cur)
 	if e.Kind == "forall" {
 		q := Forall(bound, Implies(rng, body))
-		if q.Op == "forall" && trig != nil {
-			q.Pats = []*Term{trig}
+		if q.Op == "forall" && len(trig) > 0 {
+			q.Pats = trig
 			return q
 		}
 		if q.Op == "forall" {
@@ -642,6 +644,27 @@ func (fr *FnRun) evalCall(e *Expr, env *Env) Val {
 			return v.Arr
 		}
 		panic(abortf("contract: arrayof of %T", arg(0)))
+	case "fieldarr":
+		// fieldarr(s, F): the SMT array holding field F of every element of the struct slice s
+		need(2)
+		sv, ok := ex.force(env.st, arg(0)).(*SliceV)
+		if !ok || e.Args[1].Kind != "ident" {
+			panic(abortf("contract: fieldarr(slice, Field) expected"))
+		}
+		sa, ok := fr.sliceData(env.st, sv).(*StructArr)
+		if !ok {
+			panic(abortf("contract: fieldarr() of a slice whose elements are not structs"))
+		}
+		stt := under(sa.T).(*types.Struct)
+		for i := 0; i < stt.NumFields(); i++ {
+			if stt.Field(i).Name() == e.Args[1].Name {
+				if t, ok := sa.F[i].(*Term); ok {
+					return t
+				}
+				panic(abortf("contract: fieldarr(): field %s is not scalar", e.Args[1].Name))
+			}
+		}
+		panic(abortf("contract: fieldarr(): no field %s", e.Args[1].Name))
 	case "offset":
 		need(1)
 		switch v := ex.force(env.st, arg(0)).(type) {
